@@ -1,5 +1,5 @@
 """C03: decoding is total and memory-bounded: any bytes give a message or an error."""
-import json, random, os, subprocess
+import json, random, os, subprocess, struct
 from lib import common
 from monitors import vecs as V
 from ref import model, codec, faults
@@ -48,6 +48,26 @@ def gen_cases(corpus, vectors, tier, rng):
                         pv = {'family': env.family, 'version': env.version, 'dir': d, 'opcode': op}
                         yield (f'{key}.{d[0]}.rf.{op:#x}.{L}.{rep}', {'klass': 'random_frame', 'family': env.family, 'version': env.version,
                                'dir': d, 'object': f'opcode {op:#x}', 'site': f'len{L}'}, faults.reframe(pv, body))
+    # (a2) raw header forms: size fields smaller than the opcode that has to follow (0, 1, 2, 3), the exact minimum, the Wrath 3-byte
+    # form with small / boundary / maximal sizes, each with nothing, the opcode only, and some bytes behind it
+    for key, env in corpus.envs.items():
+        if env.family != 'world':
+            continue
+        cdc = codec.Codec(env)
+        for d in ('client', 'server'):
+            ops = sorted({c.raw['opcode'] for c in env.messages() if d in cdc.directions(c)})
+            sample_ops = [ops[0], ops[len(ops) // 2], ops[-1], 0xFFFF] if tier == 'quick' else ops[::25] + [0xFFFF, 0]
+            oplen = 4 if d == 'client' else 2
+            heads = [struct.pack('>H', n) for n in (0, 1, 2, 3, 4, 5, 6, 0x7FFF, 0x8000, 0xFFFF)]
+            if env.version == 'wrath' and d == 'server':
+                heads += [bytes([0x80 | (n >> 16), (n >> 8) & 0xFF, n & 0xFF]) for n in (0, 1, 2, 3, 4, 0x7FFF, 0x8000, 0xFFFF, 0x10000, 0x7FFFFF)]
+                heads += [b'\x80', b'\x80\x00', b'\xff', b'\xff\xff', b'\xff\xff\xff']
+            for op in sample_ops:
+                opb = op.to_bytes(oplen, 'little', signed=False) if op < (1 << 8 * oplen) else b'\xff' * oplen
+                for h in heads:
+                    for tail_name, tail in (('none', b''), ('op', opb), ('op+4', opb + b'\0\1\2\3'), ('op+64', opb + bytes(range(64)))):
+                        pv = {'family': 'world', 'version': env.version, 'dir': d, 'object': f'opcode {op:#x}'}
+                        yield (f'{key}.{d[0]}.hdr.{h.hex()}.{op:#x}.{tail_name}', {'klass': 'raw_header', **pv, 'site': f'{h.hex()}+{tail_name}'}, h + tail)
     # (b)(c)(d) structured corruptions of canonical vectors
     for v in vectors:
         if v['class'] != 'canonical':
